@@ -213,72 +213,61 @@ func keyCertBuilders(c *x509.Certificate) []keyBuilder {
 	}
 }
 
-// keyExpectedFormat: the KMIP key format a builder must produce for a format mask — written from the
-// documentation of KeyFormat ("defaults to …", priority of the specific formats over Transparent),
-// independently of the selector code.
-func keyExpectedFormat(kind string, kf uint8, ver kmip.ProtocolVersion) uint32 {
-	has := func(b uint8) bool { return kf&b != 0 }
+// keyKindFormats: the formats that exist for a kind of key: KeyFormat bit → KMIP key format type (the transparent
+// EC representations switch at 1.3); the first entry is the documented default of the kind.
+func keyKindFormats(kind string, ver kmip.ProtocolVersion) [][2]uint32 {
 	const (
 		tr, x509f, pkcs8, pkcs1, sec1, raw = 1, 2, 4, 8, 16, 32
 	)
 	ge13 := ver.ProtocolVersionMajor > 1 || (ver.ProtocolVersionMajor == 1 && ver.ProtocolVersionMinor >= 3)
+	pick := func(old, new uint32) uint32 {
+		if ge13 {
+			return new
+		}
+		return old
+	}
 	switch kind {
 	case "rsapriv":
-		switch {
-		case kf == 0 || has(pkcs1):
-			return 3
-		case has(pkcs8):
-			return 4
-		case has(tr):
-			return 10
-		}
-		return 3
+		return [][2]uint32{{pkcs1, 3}, {pkcs8, 4}, {tr, 10}}
 	case "rsapub":
-		switch {
-		case kf == 0 || has(pkcs1):
-			return 3
-		case has(x509f):
-			return 5
-		case has(tr):
-			return 11
-		}
-		return 3
+		return [][2]uint32{{pkcs1, 3}, {x509f, 5}, {tr, 11}}
 	case "ecpriv":
-		switch {
-		case kf == 0 || has(sec1):
-			return 6
-		case has(pkcs8):
-			return 4
-		case has(tr):
-			if ge13 {
-				return 20
-			}
-			return 14
-		}
-		return 6
+		return [][2]uint32{{sec1, 6}, {pkcs8, 4}, {tr, pick(14, 20)}}
 	case "ecpub":
-		switch {
-		case kf == 0 || has(x509f):
-			return 5
-		case has(tr):
-			if ge13 {
-				return 21
-			}
-			return 15
-		}
-		return 5
+		return [][2]uint32{{x509f, 5}, {tr, pick(15, 21)}}
 	case "sym":
-		switch {
-		case kf == 0 || has(raw):
-			return 1
-		case has(tr):
-			return 7
-		}
-		return 1
+		return [][2]uint32{{raw, 1}, {tr, 7}}
 	case "secret":
-		return 1
+		return [][2]uint32{{raw, 1}}
 	}
-	return 0
+	return nil
+}
+
+// keyAdmissibleFormats: what the documentation of KeyFormat promises about the key format a builder produces
+// for a format mask — one of the REQUESTED formats that exist for the kind of key, or, when none of them is
+// requested, the documented default of the kind.  Nothing is assumed about the priority among several
+// requested formats (the Lean side states the same predicate: `admissible`, checked through `key.reg`).
+func keyAdmissibleFormats(kind string, kf uint8, ver kmip.ProtocolVersion) []uint32 {
+	fs := keyKindFormats(kind, ver)
+	var out []uint32
+	for _, f := range fs {
+		if uint32(kf)&f[0] != 0 {
+			out = append(out, f[1])
+		}
+	}
+	if len(out) == 0 && len(fs) > 0 {
+		out = []uint32{fs[0][1]}
+	}
+	return out
+}
+
+func keyFormatIn(f uint32, set []uint32) bool {
+	for _, x := range set {
+		if x == f {
+			return true
+		}
+	}
+	return false
 }
 
 type keyRtOrig struct {
@@ -358,9 +347,12 @@ func keyRtCase(env *keyEnv, path string, enc keyEnc, ver kmip.ProtocolVersion, b
 		return
 	}
 	if bl.err != nil {
-		if orig.multi && keyExpectedFormat(b.kind, kf, ver) == 10 {
+		if orig.multi && keyFormatIn(10, keyAdmissibleFormats(b.kind, kf, ver)) {
 			// the transparent KMIP format has two primes: refusing a multi-prime key is a correct answer
 			outcome = "refused"
+			if adm := keyAdmissibleFormats(b.kind, kf, ver); len(adm) == 1 {
+				env.regLine(b.kind, kf, ver, orig, nil, 10, "err")
+			}
 			return
 		}
 		fail("register-accepts", "register-refused", "the builder refused a valid key: "+bl.err.Error())
@@ -373,12 +365,12 @@ func keyRtCase(env *keyEnv, path string, enc keyEnc, ver kmip.ProtocolVersion, b
 	}
 	// the format the builder chose (independent expectation; the Lean model is asked through key.reg)
 	if kb := keyKbOf(req.Object); kb != nil {
-		want := keyExpectedFormat(b.kind, kf, ver)
-		if uint32(kb.KeyFormatType) != want {
-			fail("format-selector", "format-"+keyFmtName(uint32(kb.KeyFormatType))+"-for-"+keyFmtName(want),
-				fmt.Sprintf("format mask %d at %s: registered as key format %d, expected %d", kf, verStr(ver), kb.KeyFormatType, want))
+		adm := keyAdmissibleFormats(b.kind, kf, ver)
+		if !keyFormatIn(uint32(kb.KeyFormatType), adm) {
+			fail("format-selector", "format-"+keyFmtName(uint32(kb.KeyFormatType))+"-not-requested",
+				fmt.Sprintf("format mask %d at %s: registered as key format %d, which is neither a requested format of this kind of key nor (none being requested) its default; admissible: %v", kf, verStr(ver), kb.KeyFormatType, adm))
 		}
-		env.regLine(b.kind, kf, ver, orig, req.Object)
+		env.regLine(b.kind, kf, ver, orig, req.Object, uint32(kb.KeyFormatType), "ok")
 	}
 	if kb := keyKbOf(req.Object); kb != nil {
 		regFmt = uint32(kb.KeyFormatType)
@@ -675,21 +667,21 @@ func keyVerifyPayload(got *payloads.GetResponsePayload, kind string, orig *keyRt
 	}
 }
 
-// regLine: correspondence of the register side with the model (`key.reg`).
-func (env *keyEnv) regLine(kind string, kf uint8, ver kmip.ProtocolVersion, orig *keyRtOrig, obj kmip.Object) {
+// regLine: correspondence of the register side with the model (`key.reg`).  The format the library chose is part
+// of the question (the model answers whether it is admissible for the mask and what the builder produces in it).
+func (env *keyEnv) regLine(kind string, kf uint8, ver kmip.ProtocolVersion, orig *keyRtOrig, obj kmip.Object, format uint32, outcome string) {
 	var line string
 	switch kind {
-	case "rsapriv", "rsapub":
-		if orig.multi {
-			return // the toy library of the model has two-prime keys only
-		}
-		line = fmt.Sprintf("key.reg %s %d %s %s", kind, kf, verStr(ver), orig.rsa.N.String())
+	case "rsapriv":
+		line = fmt.Sprintf("key.reg %s %d %s %d %s %d", kind, kf, verStr(ver), format, orig.rsa.N.String(), len(orig.rsa.Primes))
+	case "rsapub":
+		line = fmt.Sprintf("key.reg %s %d %s %d %s", kind, kf, verStr(ver), format, orig.rsa.N.String())
 	case "ecpriv", "ecpub":
-		line = fmt.Sprintf("key.reg %s %d %s %d", kind, kf, verStr(ver), orig.ecCode)
+		line = fmt.Sprintf("key.reg %s %d %s %d %d", kind, kf, verStr(ver), format, orig.ecCode)
 	case "sym":
-		line = fmt.Sprintf("key.reg sym %d %s %d %d", kf, verStr(ver), uint32(kmip.CryptographicAlgorithmAES), len(orig.bytes))
+		line = fmt.Sprintf("key.reg sym %d %s %d %d %d", kf, verStr(ver), format, uint32(kmip.CryptographicAlgorithmAES), len(orig.bytes))
 	case "secret":
-		line = fmt.Sprintf("key.reg secret %d %s %d %d", kf, verStr(ver), uint32(kmip.SecretDataTypePassword), len(orig.bytes))
+		line = fmt.Sprintf("key.reg secret %d %s %d %d %d", kf, verStr(ver), format, uint32(kmip.SecretDataTypePassword), len(orig.bytes))
 	default:
 		return
 	}
@@ -697,6 +689,11 @@ func (env *keyEnv) regLine(kind string, kf uint8, ver kmip.ProtocolVersion, orig
 		return
 	}
 	env.seen[line] = true
+	env.ctx.Res.Count("reg." + kind + "." + outcome)
+	if obj == nil {
+		env.ctx.Add(line, "adm=true "+outcome, true, "C14")
+		return
+	}
 	kb := keyKbOf(obj)
 	sh := keyBlockFromGo(kb)
 	slot := "none"
@@ -712,9 +709,78 @@ func (env *keyEnv) regLine(kind string, kf uint8, ver kmip.ProtocolVersion, orig
 			}
 		}
 	}
-	impl := fmt.Sprintf("ok type=%d f=%d c=%d alg=%d len=%d slot=%s", uint32(obj.ObjectType()), sh.format, sh.comp, uint32(kb.CryptographicAlgorithm), kb.CryptographicLength, slot)
+	impl := fmt.Sprintf("adm=true ok type=%d f=%d c=%d alg=%d len=%d slot=%s", uint32(obj.ObjectType()), sh.format, sh.comp, uint32(kb.CryptographicAlgorithm), kb.CryptographicLength, slot)
 	env.ctx.Add(line, impl, true, "C14")
-	env.ctx.Res.Count("reg." + kind)
+}
+
+// keyRegSweep: every format mask 0..255 for each kind of key, at a version on each side of the 1.3 switch: the
+// builder alone (no transport), admissibility of the chosen format, `key.reg` correspondence.
+func keyRegSweep(env *keyEnv) {
+	ctx := env.ctx
+	var rsaS *keyRSASample
+	for _, s := range env.rsas {
+		if s.label == "r512" {
+			rsaS = s
+		}
+	}
+	var ecS *keyECSample
+	for _, s := range env.ecs {
+		if s.label == "p384-rand" {
+			ecS = s
+		}
+	}
+	type item struct {
+		b    keyBuilder
+		orig *keyRtOrig
+	}
+	var items []item
+	if rsaS != nil {
+		o := &keyRtOrig{label: rsaS.label, rsa: rsaS.key}
+		items = append(items, item{keyBuilderNamed(keyRSABuilders(rsaS.key), "RsaPrivateKey"), o}, item{keyBuilderNamed(keyRSABuilders(rsaS.key), "RsaPublicKey"), o})
+	}
+	if ecS != nil {
+		o := &keyRtOrig{label: ecS.label, ec: ecS.key, ecCode: ecS.code}
+		items = append(items, item{keyBuilderNamed(keyECBuilders(ecS.key), "EcdsaPrivateKey"), o}, item{keyBuilderNamed(keyECBuilders(ecS.key), "EcdsaPublicKey"), o})
+	}
+	symB := make([]byte, 16)
+	items = append(items, item{keyBuilderNamed(keyBytesBuilders(symB), "SymmetricKey"), &keyRtOrig{label: "b-zeros16", bytes: symB}},
+		item{keyBuilderNamed(keyBytesBuilders(symB), "Secret"), &keyRtOrig{label: "b-zeros16", bytes: symB}})
+	for _, ver := range []kmip.ProtocolVersion{kmip.V1_2, kmip.V1_3} {
+		cl := env.client(ver)
+		if cl == nil {
+			return
+		}
+		for _, it := range items {
+			for kf := 0; kf < 256; kf++ {
+				line := fmt.Sprintf("#key.regsweep %s %s %d", verStr(ver), it.b.name, kf)
+				ctx.current = line
+				type built struct {
+					pl  kmip.OperationPayload
+					err error
+				}
+				bl, p := guard("builder", func() built {
+					pl, err := it.b.build(cl.Register().WithKeyFormat(kmipclient.KeyFormat(kf))).Build()
+					return built{pl, err}
+				})
+				ctx.Res.Count("regsweep." + it.b.kind)
+				if p != "" || bl.err != nil {
+					keyViolate(ctx, "register-accepts", "key:regsweep:"+it.b.kind+":refused", fmt.Sprintf("the builder refused a valid key for format mask %d: %v %s [%s]", kf, bl.err, p, line), line)
+					continue
+				}
+				req, ok := bl.pl.(*payloads.RegisterRequestPayload)
+				if !ok || req.Object == nil || keyKbOf(req.Object) == nil {
+					keyViolate(ctx, "register-accepts", "key:regsweep:"+it.b.kind+":no-object", fmt.Sprintf("the builder produced %T without a key object [%s]", bl.pl, line), line)
+					continue
+				}
+				f := uint32(keyKbOf(req.Object).KeyFormatType)
+				if adm := keyAdmissibleFormats(it.b.kind, uint8(kf), ver); !keyFormatIn(f, adm) {
+					keyViolate(ctx, "format-selector", "key:regsweep:"+it.b.kind+":format-"+keyFmtName(f)+"-not-requested",
+						fmt.Sprintf("format mask %d at %s: registered as key format %d; admissible: %v [%s]", kf, verStr(ver), f, adm, line), line)
+				}
+				env.regLine(it.b.kind, uint8(kf), ver, it.orig, req.Object, f, "ok")
+			}
+		}
+	}
 }
 
 // keyCrtMatches: the CRT values of `got` (Dp, Dq, Qinv) are the ones determined by the first two primes of `orig`.
